@@ -126,6 +126,9 @@ theorem C03_kernel_pos_advance (p d s : Int) : pos_advance p d s = p + d * s := 
 theorem C03_kernel_pos_distance (p q s : Int) : pos_distance p q s = Int.tdiv (q - p) s := by
   unfold pos_distance; kernel_eq
 
+theorem C03_kernel_it2d_equal (x y x2 y2 p q : Int) : it2d_equal x y x2 y2 p q = if (x = x2 ∧ y = y2) ∧ p = q then 1 else 0 := by
+  unfold it2d_equal; kernel_eq
+
 /-- uniqueness of (row, column) for a 1-D index -/
 private theorem divmod_unique {w a b p q : Int} (hw : 0 < w) (ha : 0 ≤ a) (ha' : a < w) (hb : 0 ≤ b) (hb' : b < w)
     (h : p * w + a = q * w + b) : a = b ∧ p = q := by
@@ -267,6 +270,24 @@ theorem C03_distance_advance (n x y w px py : Int) (hw : 0 < w) (hx : 0 ≤ x) (
   constructor
   · linear_combination a2
   · linear_combination (-1 : Int) * a2
+
+/-- `it + n == it + m ⇔ n = m` (`iterator_from_2d::equal`: same coordinates and same locator; `f` = where a locator
+    displaced by (dx,dy) is -- any function) -/
+theorem C03_equal_iff (n m x y w px py : Int) (f : Int → Int → Int) (hw : 0 < w) (hx : 0 ≤ x) (hx' : x < w) :
+    it2d_equal (it2d_advance n x y w px py).1 (it2d_advance n x y w px py).2.1 (it2d_advance m x y w px py).1 (it2d_advance m x y w px py).2.1
+      (f (it2d_advance n x y w px py).2.2.1 (it2d_advance n x y w px py).2.2.2)
+      (f (it2d_advance m x y w px py).2.2.1 (it2d_advance m x y w px py).2.2.2) = 1 ↔ n = m := by
+  obtain ⟨a0, a1, a2, a3, a4⟩ := C03_advance_spec n x y w px py hw hx hx'
+  obtain ⟨b0, b1, b2, b3, b4⟩ := C03_advance_spec m x y w px py hw hx hx'
+  rw [C03_kernel_it2d_equal]
+  constructor
+  · intro h
+    by_cases hc : ((it2d_advance n x y w px py).1 = (it2d_advance m x y w px py).1 ∧ (it2d_advance n x y w px py).2.1 = (it2d_advance m x y w px py).2.1)
+        ∧ f (it2d_advance n x y w px py).2.2.1 (it2d_advance n x y w px py).2.2.2 = f (it2d_advance m x y w px py).2.2.1 (it2d_advance m x y w px py).2.2.2
+    · obtain ⟨⟨e1, e2⟩, _⟩ := hc
+      rw [e1, e2] at a2; omega
+    · simp [hc] at h
+  · intro h; subst h; simp
 
 /-- `it.distance_to(jt)` is the difference of the 1-D indices, so `it < jt ⇔ jt - it > 0 ⇔`
     index(it) < index(jt), and the order is antisymmetric -/
